@@ -1665,7 +1665,7 @@ func main() {
 	flag.Parse()
 
 	p := &pkgInfo{fset: token.NewFileSet(), funcs: map[string][]*ast.FuncDecl{}, imports: map[string]bool{},
-		pools: map[string]int{}, typePool: map[string]int{}, relevant: map[string]bool{}, constructors: map[string]bool{}, budget: 4000}
+		pools: map[string]int{}, typePool: map[string]int{}, relevant: map[string]bool{}, constructors: map[string]bool{}, budget: 40000}
 	dir := filepath.Join(*repo, "larking")
 	ents, err := os.ReadDir(dir)
 	if err != nil {
